@@ -24,6 +24,7 @@ def run(chk):
     _confirm_shape_rules(chk, prog, m)
     r3(chk, prog, m)
     r5(chk, prog, m)
+    r6(chk, prog, m)
     own.rule_leaks(chk, prog, "C20.R4", only_functions={"json_object_from_fd_ex", "json_object_from_file", "json_object_to_file_ext",
                                                          "_json_object_to_fd", "json_object_to_fd"}, floor=4)
     chk.undecided_clauses += [
@@ -675,3 +676,35 @@ def _confirm_shape_rules(chk, prog, m, only=None):
                          "no misbehaviour (%s)" % (o.msg[:120], msg))
         elif verdict == "bad":
             bad[0].msg = bad[0].msg + "; evaluation: " + msg
+
+
+# ---------------------------------------------------------------------------
+def r6(chk, prog, m):
+    """a file opened for writing starts empty"""
+    rid = "C20.R6"
+    chk.rule(rid, "every open() for writing in the file helpers creates and truncates (O_CREAT | O_TRUNC, or O_APPEND never): the text "
+                  "written is then the whole file, whatever an earlier, longer save left there")
+    O_ACC, O_WRONLY, O_RDWR, O_CREAT, O_TRUNC = 3, 1, 2, 0o100, 0o1000
+    n = 0
+    for f in [g for g in m.functions.values() if not g.is_decl]:
+        for i in f.instrs():
+            if i.op != "call" or i.callee not in ("open", "open64", "openat") or len(i.ops) < 2:
+                continue
+            fl = i.ops[1] if i.callee != "openat" else i.ops[2]
+            if fl.kind != "int":
+                n += 1
+                chk.touched(f)
+                chk.undecided(rid, f.name, "open flags", i.locstr(), "the flags of this open() are not a constant")
+                continue
+            if fl.v & O_ACC not in (O_WRONLY, O_RDWR):
+                continue
+            n += 1
+            chk.touched(f)
+            if fl.v & O_TRUNC and fl.v & O_CREAT:
+                chk.proven(rid, f.name, "open flags", i.locstr(), "flags 0%o: create and truncate" % fl.v)
+            else:
+                chk.refuted(rid, f.name, "open flags", i.locstr(),
+                            "the file is opened for writing with flags 0%o, without %s: when the path already holds a longer text, its tail "
+                            "stays behind the newly written one and the file is not the serialization of the tree"
+                            % (fl.v, "O_TRUNC" if not fl.v & O_TRUNC else "O_CREAT"))
+    chk.floor(rid, n, 1, "open() calls for writing")
